@@ -54,22 +54,23 @@ const (
 // universe
 
 var (
-	unit       = new(big.Int).Exp(big.NewInt(10), big.NewInt(18), nil)
-	fee        = new(big.Int).Exp(big.NewInt(10), big.NewInt(15), nil) // 0.001, transaction_pool.go delta026
-	minerIDs   []string                                                // hex, harness miners m1 m2
-	acctHex    []string                                                // hex, harness accounts a1 a2 a3
-	initBal    = map[string]*big.Int{}
-	genesisIDs []string
-	allIDs     []string
-	watchAccts []string // harness accounts + fee account + accounts of genesis miners
-	feeHex     string
-	initMulti  = map[string]int{} // accounts that control several miners at genesis
-	template   *refminers.Model
-	initTotal  *big.Int
-	dummySign  *common.Sign
-	blockTime  = time.Date(2024, 5, 1, 0, 0, 0, 0, time.UTC)
-	rules      refminers.Rules
-	reApplyH   = regexp.MustCompile(`"applyHeight":[0-9]+`)
+	unit        = new(big.Int).Exp(big.NewInt(10), big.NewInt(18), nil)
+	fee         = new(big.Int).Exp(big.NewInt(10), big.NewInt(15), nil) // 0.001, transaction_pool.go delta026
+	minerIDs    []string                                                // hex, harness miners m1 m2
+	acctHex     []string                                                // hex, harness accounts a1 a2 a3
+	initBal     = map[string]*big.Int{}
+	genesisIDs  []string
+	allIDs      []string
+	watchAccts  []string // harness accounts + fee account + accounts of genesis miners
+	feeHex      string
+	contractHex string             // harness account c1 (has code)
+	initMulti   = map[string]int{} // accounts that control several miners at genesis
+	template    *refminers.Model
+	initTotal   *big.Int
+	dummySign   *common.Sign
+	blockTime   = time.Date(2024, 5, 1, 0, 0, 0, 0, time.UTC)
+	rules       refminers.Rules
+	reApplyH    = regexp.MustCompile(`"applyHeight":[0-9]+`)
 )
 
 func hx(b []byte) string { return hex.EncodeToString(b) }
@@ -116,6 +117,12 @@ func setup() {
 	initBal[acctHex[0]] = rpg("4400.5")
 	initBal[acctHex[1]] = rpg("4400.5")
 	initBal[acctHex[2]] = rpg("900.5")
+	// c1: an account that carries code (account class "contract")
+	ca := make([]byte, 20)
+	ca[0], ca[1], ca[19] = 0xc2, 0xcc, 1
+	acctHex = append(acctHex, hx(ca))
+	contractHex = hx(ca)
+	initBal[contractHex] = rpg("4400.5")
 	feeHex = hx(common.FeeAccount.Bytes())
 	sb := make([]byte, 65)
 	sb[31], sb[63] = 1, 1
@@ -126,6 +133,7 @@ func setup() {
 		Fee:        fee,
 		Unit:       unit,
 		ApplyDelay: common.HeightAfterStake, RefundDelay: refundDelay, FeeAccount: feeHex,
+		Contract: map[string]bool{contractHex: true},
 	}
 	if common.MinerTypeValidator != refminers.TypeVal || common.MinerTypeProposer != refminers.TypeProp ||
 		common.MinerStatusNormal != refminers.StatusNormal || common.MinerStatusAbort != refminers.StatusAbort {
@@ -203,15 +211,22 @@ type Op struct {
 func (o Op) String() string {
 	switch o.K {
 	case "apply":
-		return fmt.Sprintf("apply(m%d,a%d,%s,%s%s)", o.M+1, o.A+1, []string{"validator", "proposer"}[o.T], []string{"min-1", "min", "2min"}[o.S], []string{"", ",paid by the other account"}[o.P])
+		return fmt.Sprintf("apply(m%d,%s,%s,%s%s)", o.M+1, acctName(o.A), []string{"validator", "proposer"}[o.T], []string{"min-1", "min", "2min"}[o.S], []string{"", ",paid by the other account"}[o.P])
 	case "add":
 		return fmt.Sprintf("add(m%d,%s,%s)", o.M+1, []string{"0", "1", "balance+1", "min"}[o.S], []string{"owner", "stranger"}[o.By])
 	case "refund":
-		return fmt.Sprintf("refund(m%d,%s,%s)", o.M+1, []string{"1", "all", "stake+1", "to-min"}[o.S], []string{"owner", "stranger"}[o.By])
+		return fmt.Sprintf("refund(m%d,%s,%s)", o.M+1, []string{"1", "all", "stake+1", "to-min", "exact-stake"}[o.S], []string{"owner", "stranger"}[o.By])
 	case "chg":
-		return fmt.Sprintf("change-account(m%d->a%d,%s)", o.M+1, o.A+1, []string{"owner", "stranger"}[o.By])
+		return fmt.Sprintf("change-account(m%d->%s,%s)", o.M+1, acctName(o.A), []string{"owner", "stranger"}[o.By])
 	}
 	return o.K
+}
+
+func acctName(i int) string {
+	if i == 3 {
+		return "c1"
+	}
+	return fmt.Sprintf("a%d", i+1)
 }
 
 func histString(h []Op, open int) string {
@@ -238,6 +253,14 @@ func alphabet(thorough bool) []Op {
 				for s := 0; s < 3; s++ {
 					ops = append(ops, Op{K: "apply", M: m, A: a, T: t, S: s})
 				}
+			}
+		}
+	}
+	// account class "contract": the controlling (and paying) account carries code
+	for m := 0; m < 2; m++ {
+		for t := 1; t >= 0; t-- {
+			for s := 1; s < 3; s++ {
+				ops = append(ops, Op{K: "apply", M: m, A: 3, T: t, S: s})
 			}
 		}
 	}
@@ -272,15 +295,23 @@ func alphabet(thorough bool) []Op {
 				ops = append(ops, Op{K: "refund", M: m, S: s, By: by})
 			}
 		}
+		ops = append(ops, Op{K: "refund", M: m, S: 4}) // exactly the stake, by the owner
 	}
 	for m := 0; m < 2; m++ {
-		for a := 0; a < 3; a++ {
+		for a := 0; a < 4; a++ {
 			ops = append(ops, Op{K: "chg", M: m, A: a})
 		}
 		ops = append(ops, Op{K: "chg", M: m, A: 2, By: 1})
 	}
 	ops = append(ops, Op{K: "release"})
 	return ops
+}
+
+func payer(o Op) string {
+	if o.P == 1 {
+		return acctHex[(o.A+1)%2]
+	}
+	return acctHex[o.A]
 }
 
 // owner / stranger of a harness miner according to the model (a1 if there is no record)
@@ -292,12 +323,12 @@ func actor(m *refminers.Model, id string, by int) string {
 	if by == 0 {
 		return owner
 	}
-	for i, a := range acctHex {
+	for i, a := range acctHex[:3] {
 		if a == owner {
-			return acctHex[(i+1)%len(acctHex)]
+			return acctHex[(i+1)%3]
 		}
 	}
-	return acctHex[1]
+	return acctHex[0]
 }
 
 // resolve turns an operation class into a concrete transaction, given the model state.
@@ -307,7 +338,7 @@ func resolve(o Op, m *refminers.Model) refminers.Tx {
 	case "apply":
 		typ := byte(o.T)
 		min := rules.MinStake[typ]
-		return refminers.Tx{Kind: "apply", Source: acctHex[(o.A+o.P)%2], Account: acctHex[o.A], ID: id, Type: typ,
+		return refminers.Tx{Kind: "apply", Source: payer(o), Account: acctHex[o.A], ID: id, Type: typ,
 			Amount: []uint64{min - 1, min, 2 * min}[o.S], PK: "aa" + id[:8], VRF: "bb" + id[:8]}
 	case "add":
 		src := actor(m, id, o.By)
@@ -341,6 +372,8 @@ func resolve(o Op, m *refminers.Model) refminers.Tx {
 			amt = math.MaxUint64
 		case 2:
 			amt = stake + 1
+		case 4:
+			amt = stake
 		case 3:
 			if stake > min {
 				amt = stake - min
@@ -398,6 +431,7 @@ func newWorld() *world {
 	for _, a := range acctHex {
 		w.db.SetBalance(addrOf(a), initBal[a])
 	}
+	w.db.SetCode(addrOf(contractHex), []byte{0x00}) // STOP
 	return w
 }
 
@@ -489,6 +523,11 @@ func (r *rec) String() string {
 }
 
 func tail(s string) string {
+	for i, a := range acctHex {
+		if a == s {
+			return "(" + acctName(i) + ")"
+		}
+	}
 	if len(s) > 6 {
 		return s[len(s)-6:]
 	}
@@ -555,6 +594,9 @@ func (w *world) pendingRefunds() map[uint64]map[string]*big.Int {
 	}
 	for h, l := range types.GetRefundInfo(w.ctx) {
 		for _, ri := range l.List {
+			if ri.Value.Sign() == 0 {
+				continue
+			}
 			if out[h] == nil {
 				out[h] = map[string]*big.Int{}
 			}
@@ -1384,6 +1426,7 @@ func reducedAlphabet() []Op {
 		}
 	}
 	for m := 0; m < 2; m++ {
+		ops = append(ops, Op{K: "apply", M: m, A: 3, T: 0, S: 1})
 		ops = append(ops, Op{K: "add", M: m, S: 1})
 		ops = append(ops, Op{K: "refund", M: m, S: 0}, Op{K: "refund", M: m, S: 1})
 		for a := 0; a < 3; a++ {
@@ -1569,7 +1612,7 @@ func replay(c *fw.Ctx, raw json.RawMessage) {
 func main() {
 	fw.Main(fw.Check{
 		ID: "C20", Level: "model_checking",
-		Rule: "BFS over histories of miner transactions (apply/add/refund/change-account/release over 2 miner ids x 3 accounts, " +
+		Rule: "BFS over histories of miner transactions (apply/add/refund/change-account/release over 2 miner ids x 3 plain accounts + 1 account with code, " +
 			"each history in two packings: one transaction per block, or the last k transactions in one block); a state is the canonical dump of " +
 			"the registry storage (cached slots + committed trie of both registry accounts), escrow records and fee-free balances plus the model state; " +
 			"counted as non-trivial: distinct states that hold at least one harness-created miner record or a scheduled refund " +
@@ -1579,7 +1622,7 @@ func main() {
 			"blocks are executed by core.VerifExecuteBlock on one AccountDB with IntermediateRoot between blocks (no commit / reopen)",
 			"the state between two transactions of a block is observed with a harness loop over the real executors; its final root is compared with the block executor's on every history",
 			"harness accounts start with x.5 tokens: the 0.001 fees never decide a balance check, which justifies the fee-insensitive search key",
-			"reference model verif/h/refminers; operator-node (type 7) transactions and contract-controlled miners are out of scope",
+			"reference model verif/h/refminers; contract-controlled miners are driven by executor-level transactions whose source/account is an address with code; operator-node (type 7) transactions and the EVM STAKE/UNSTAKE opcodes are out of scope",
 		},
 		Run: run, Replay: replay,
 		Budget: func(tier string) time.Duration {
